@@ -249,12 +249,15 @@ fn run(ctx: &Ctx) {
     if !ctx.run_prop("with_splits", RULE, ctx.cases(1000, 120_000), strat_split, check) {
         return;
     }
-    ctx.run_prop("with_asset_events", RULE, ctx.cases(800, 80_000), strat_events, check);
+    if !ctx.run_prop("with_asset_events", RULE, ctx.cases(800, 80_000), strat_events, check) {
+        return;
+    }
+    crate::props::proc_checks::c06_cli(ctx);
 }
 
 fn replay(name: &str, case: &Value) -> Option<Verdict> {
     match name {
         "plain" | "with_splits" | "with_asset_events" => Some(replay_case::<Case, _>(case, check).unwrap_or_else(Verdict::Fail)),
-        _ => None,
+        other => crate::props::proc_checks::replay(other, case),
     }
 }
